@@ -30,3 +30,13 @@ register('C12', 'other',
          not_decided=['agreement across instances under all interleavings / fault prefixes (delivery is outside)',
                       'truth of the view with respect to the remote Supervisors'],
          assumptions=['the C11 contracts (proved by ./check C11)'])
+register('C16', 'proof',
+         'Scoped proof: the implicit exception-freedom obligations (one safe: obligation per partial operation - subscript, '
+         'attribute of a possibly-None value, min/max of empty, enum conversion, explicit raise - plus the call-site '
+         'preconditions that carry the safety of the callees) of EVERY function under contract that is reachable from a '
+         'SupervisorListener entry point or an XML-RPC method, proved for all inputs satisfying shape validity and the '
+         'proved object invariants. XML-RPC methods may only let RPCError escape. The handler-reachable call graph, the '
+         'functions under contract and the unverified remainder (by name) are listed in coverage.handler_reachability.',
+         not_decided=['exception-freedom of the unverified remainder of the handler-reachable call graph (listed by name)',
+                      'web UI, statistics collector process, Supervisor patches, transport threads'],
+         assumptions=['payload record shapes (contracts/shapes.py)', 'single-threaded atomic handlers'])
